@@ -2,7 +2,8 @@ import XixiKV.Proofs.EnginePolicy
 import XixiKV.Properties.C01
 import XixiKV.Properties.C02
 import XixiKV.Properties.C05
-import XixiKV.Proofs.TransEq
+import XixiKV.Proofs.TransEqNpot
+import XixiKV.Properties.C10
 /-!
 # C14 — results do not depend on index type, shard count, I/O back-end; file-size limit and sync
 # strategy change only file layout and flush timing
@@ -210,6 +211,40 @@ theorem C14_index_io_irrelevant_queries {s₁ s₂ : St} (h : Sim s₁ s₂) {db
     rw [← iterNew_retag (0, 0, 0) db₁, e2, iterNew_retag]
   · intro k
     rw [← absGet_retag (0, 0, 0) s₁ db₁, e1, e2, absGet_retag]
+
+/-- **C14 (shard count / index type), cursor scripts**: the sharded heap-merging iterator itself —
+    the one place of the Go code whose behaviour could depend on how the keys are spread over the
+    shards — shows the same `Valid / Key / Value` on the fresh iterator and after every call of ANY
+    call sequence (backward `Seek`s, `Seek` on an exhausted iterator, several `Seek`s in a row
+    included), whichever shard function, shard count and index type the two runs use; at DB level
+    (prefix filter) and at index level.  No side condition on the calls: `Seek` never moves an
+    iterator backwards (`C10.C10_cursor`). -/
+theorem C14_cursor_shards_irrelevant {V : Type} (shardOf₁ shardOf₂ : Key → Nat) (n₁ n₂ : Nat)
+    (typ₁ typ₂ : ShardIter.IndexType) (rev : Bool) (pre : Key) (idx : List (Key × V))
+    (hsorted : idx.Pairwise (fun a b => keyLt a.1 b.1 = true))
+    (h₁ : ∀ x ∈ idx, shardOf₁ x.1 < n₁) (h₂ : ∀ x ∈ idx, shardOf₂ x.1 < n₂)
+    (calls : List ShardIter.Call) :
+    (ShardIter.DBIter.new typ₁ rev pre (ShardIter.shardsOf shardOf₁ n₁ idx)).trace calls
+      = (ShardIter.DBIter.new typ₂ rev pre (ShardIter.shardsOf shardOf₂ n₂ idx)).trace calls ∧
+    (ShardIter.IndexIterator.create typ₁ rev (ShardIter.shardsOf shardOf₁ n₁ idx)).trace calls
+      = (ShardIter.IndexIterator.create typ₂ rev (ShardIter.shardsOf shardOf₂ n₂ idx)).trace calls := by
+  constructor
+  · rw [C10.C10_cursor shardOf₁ n₁ typ₁ rev pre idx hsorted h₁ calls,
+      C10.C10_cursor shardOf₂ n₂ typ₂ rev pre idx hsorted h₂ calls]
+  · rw [C10.C10_cursor_index shardOf₁ n₁ typ₁ rev idx hsorted h₁ calls,
+      C10.C10_cursor_index shardOf₂ n₂ typ₂ rev idx hsorted h₂ calls]
+
+/-- the instance that used to differ (`C10.backward_seek_agrees`): keys `a … f`, the real
+    `xxhash & 3` placement on 4 shards with B-tree cursors against one shard with map cursors,
+    `Next; Next; Seek a; Next; Seek z; Seek b` -/
+example := C14_cursor_shards_irrelevant C10.bwShard (fun _ => 0) 4 1 .btree .hashmap false ByteArray.empty
+  C10.bwIdx (by decide) (by decide) (by decide)
+  [.next, .next, .seek (C10.k [97]), .next, .seek (C10.k [122]), .seek (C10.k [98])]
+example :
+    ((ShardIter.IndexIterator.create .btree false (ShardIter.shardsOf C10.bwShard 4 C10.bwIdx)).trace
+      [.next, .next, .seek (C10.k [97]), .next, .seek (C10.k [122]), .seek (C10.k [98])]).map (·.key)
+    = [some (C10.k [97]), some (C10.k [98]), some (C10.k [99]), some (C10.k [99]), some (C10.k [100]),
+       none, none] := by decide
 
 /-! ## 2. file-size limit and sync strategy change only layout and flush timing -/
 
